@@ -6,6 +6,7 @@ import (
 	"fmt"
 	"io"
 	"net"
+	"os"
 	"strings"
 	"sync"
 	"sync/atomic"
@@ -145,6 +146,7 @@ func TestC42(t *testing.T) {
 			var opts []tg.DCOption
 			var dials []*c42Dial
 			var maxLatency time.Duration
+			errKinds := map[string]bool{}
 			for i := 0; i < n; i++ {
 				d := &c42Dial{
 					Latency: time.Duration(rapid.SampledFrom(c42Latencies).Draw(t, "latencyMs")) * time.Millisecond,
@@ -153,7 +155,27 @@ func TestC42(t *testing.T) {
 				}
 				ip := fmt.Sprintf("10.0.0.%d", i+1)
 				d.Addr = net.JoinHostPort(ip, "443")
-				d.err = fmt.Errorf("dial %s: connection refused (fake #%d)", d.Addr, i)
+				// the failure is whatever error value a dialer may return: a plain
+				// one, or one that wraps a context or deadline error of the
+				// dialer's own (a proxy dialer whose own lifetime ended) while
+				// the caller's context is alive.
+				switch kind := rapid.SampledFrom([]string{"plain", "plain", "plain", "wraps-canceled", "wraps-deadline", "wraps-os-deadline", "wraps-eof", "op-error"}).Draw(t, "errKind"); kind {
+				case "plain":
+					d.err = fmt.Errorf("dial %s: connection refused (fake #%d)", d.Addr, i)
+				case "wraps-canceled":
+					d.err = fmt.Errorf("dial %s via proxy (fake #%d): %w", d.Addr, i, context.Canceled)
+				case "wraps-deadline":
+					d.err = fmt.Errorf("dial %s via proxy (fake #%d): %w", d.Addr, i, context.DeadlineExceeded)
+				case "wraps-os-deadline":
+					d.err = fmt.Errorf("dial %s (fake #%d): %w", d.Addr, i, os.ErrDeadlineExceeded)
+				case "wraps-eof":
+					d.err = fmt.Errorf("dial %s (fake #%d): %w", d.Addr, i, io.EOF)
+				default:
+					d.err = &net.OpError{Op: "dial", Net: "tcp", Err: fmt.Errorf("connection refused (fake #%d to %s)", i, d.Addr)}
+				}
+				if d.Outcome != "ok" {
+					errKinds["err:"+d.Outcome+":"+errKindOf(d.err)] = true
+				}
 				f.byAddr[d.Addr] = d
 				dials = append(dials, d)
 				if d.Latency > maxLatency {
@@ -356,6 +378,9 @@ func TestC42(t *testing.T) {
 			if okEstablished >= 2 {
 				classes = append(classes, "dials that succeeded>=2")
 			}
+			for k := range errKinds {
+				classes = append(classes, k)
+			}
 			// non-trivial: at least two dials succeed, or a connection gets
 			// established after the resolver has returned
 			nontrivial := n >= 2 && (okEstablished >= 2 || lateAfterReturn)
@@ -387,4 +412,22 @@ func c42Contains(err, want error) bool {
 		}
 	}
 	return false
+}
+
+func errKindOf(err error) string {
+	switch {
+	case errors.Is(err, context.Canceled):
+		return "wraps-context.Canceled"
+	case errors.Is(err, context.DeadlineExceeded):
+		return "wraps-context.DeadlineExceeded"
+	case errors.Is(err, os.ErrDeadlineExceeded):
+		return "wraps-os.ErrDeadlineExceeded"
+	case errors.Is(err, io.EOF):
+		return "wraps-io.EOF"
+	}
+	var op *net.OpError
+	if errors.As(err, &op) {
+		return "net.OpError"
+	}
+	return "plain"
 }
